@@ -236,7 +236,7 @@ Proof.
   { destruct (props_inv0_empty pt) as (A & B & C & D & E).
     split; [exact A|]. split; [exact B|]. split; [exact C|]. split; [exact D|]. split; [exact E|].
     cbn. discriminate. }
-  destruct b as [|b0 bt] eqn:Eb; [inversion H; subst; split; [exact Hempty|constructor]|].
+  destruct b as [|b0 bt] eqn:Eb; [destruct (_ || _); [|discriminate]; inversion H; subst; split; [exact Hempty|constructor]|].
   rewrite <- Eb in *. clear Eb b0 bt.
   destruct (read_varint b) as [[n l]| | |] eqn:Ev; cbn [bind] in H; try discriminate.
   apply read_vbi_bytes in Ev; [|assumption].
@@ -245,7 +245,7 @@ Proof.
     destruct (props_inv0_empty pt) as (A & B & C & D & E).
     split; [exact A|]. split; [exact B|]. split; [exact C|]. split; [exact D|]. split; [exact E|].
     cbn. discriminate.
-  - unfold buf_next in H.
+  - destruct (shorter l n); [discriminate|]. unfold buf_next in H.
     destruct (props_loop _ _ _ _) as [p1| | |] eqn:El; cbn [bind] in H; try discriminate.
     apply props_loop_inv in El; [|auto with cbytes|apply props_inv0_empty].
     destruct (is_some (ps_get 22 (pr_single p1)) && negb (is_some (ps_get 21 (pr_single p1)))) eqn:Ea; [discriminate|].
@@ -286,7 +286,7 @@ Proof.
     repeat split; try constructor; try contradiction; intros; try contradiction; congruence. }
   destruct (n =? 0).
   - inversion H; subst. auto.
-  - unfold buf_next in H.
+  - destruct (shorter l n); [discriminate|]. unfold buf_next in H.
     destruct (will_props_loop _ _ _) as [p1| | |] eqn:El; cbn [bind] in H; try discriminate.
     inversion H; subst.
     apply will_props_loop_inv in El; [|auto with cbytes|assumption].
